@@ -331,6 +331,40 @@ pub fn run(ctx: &Ctx) -> i32 {
             }
         }
     });
+    // shading devices of a window (overhang, left and right fin): each generated shade depends on its own attributes
+    // only - the fins of a window with an overhang are where they are without it, and the other way round
+    {
+        let devs = [0.0f32, 37.5];
+        for (si, dev) in devs.iter().enumerate() {
+            let spec = Spec { outline: [0usize, 1][si], height: 2.5, storeys: 1, offset: (0.0, 0.0), space_az: 0.0, global_dev: *dev, window: 1, shade: 0, poly_roof: false };
+            let base = projgen::ctehexml_text(&spec);
+            let over = "    OVERHANG-A = 0.3\n    OVERHANG-B = 0.4\n    OVERHANG-W = 2.6\n    OVERHANG-D = 0.8\n    OVERHANG-ANGLE = 90\n";
+            let fins = "    LEFT-FIN-A = 0.2\n    LEFT-FIN-B = 0.1\n    LEFT-FIN-H = 1.5\n    LEFT-FIN-D = 0.5\n    RIGHT-FIN-A = 0.25\n    RIGHT-FIN-B = 0.15\n    RIGHT-FIN-H = 1.4\n    RIGHT-FIN-D = 0.6\n";
+            let with = |extra: &str| -> Option<Vec<(String, String)>> {
+                let p = base.find("= WINDOW\n")? + "= WINDOW\n".len();
+                let t = format!("{}{}{}", &base[..p], extra, &base[p..]);
+                match corpus::convert_text(&t, false) {
+                    Outcome::Ok(m) => Some(m.shades.iter().map(|s| (s.name.clone(), format!("{:?}", s.geometry))).collect()),
+                    _ => None,
+                }
+            };
+            ctx.eval(3);
+            let (a, b, c) = (with(over), with(fins), with(&format!("{}{}", over, fins)));
+            let case = json!({"part": "window shading devices", "spec": format!("{:?}", spec)});
+            match (a, b, c) {
+                (Some(a), Some(b), Some(c)) => {
+                    let pick = |v: &Vec<(String, String)>, suffix: &str| v.iter().find(|(n, _)| n.ends_with(suffix)).map(|(_, g)| g.clone());
+                    for (suffix, alone) in [("_overhang", &a), ("_left_fin", &b), ("_right_fin", &b)] {
+                        let (x, y) = (pick(alone, suffix), pick(&c, suffix));
+                        if x.is_none() || x != y {
+                            ctx.violation(&format!("geometry:window-shading-device:{}-depends-on-the-other-devices", suffix.trim_start_matches('_')), &format!("the {} shade of a window is {:?} when defined alone and {:?} when the window also has the other devices", suffix.trim_start_matches('_'), x, y), case.clone());
+                        }
+                    }
+                }
+                _ => ctx.violation("convert:generated-building-rejected:window-shading-devices", "a generated building whose window has an overhang and/or fins does not convert", case),
+            }
+        }
+    }
     // real projects: calibration of the reference + rotation covariance
     let mut files: Vec<(String, bool)> = corpus::project_dirs().iter().filter_map(|d| corpus::ctehexml_path(d)).map(|p| (p, false)).collect();
     files.extend(corpus::cte_files().into_iter().map(|p| (p, true)));
@@ -367,7 +401,7 @@ pub fn run(ctx: &Ctx) -> i32 {
     ctx.sample(json!({"part": "generated", "spec": format!("{:?}", specs[specs.len() / 2])}));
     ctx.finish(
         "model_checking",
-        "generated buildings over the product outline{rectangle, L, triangle, convex pentagon, U, rectangle with a corner written twice} x storey height x storeys{1,2} x space offset{(0,0),(3,-2) and 1.2 m up} x space azimuth{0,90,30} x global deviation{0,90,180,290,37.5 (3 values in quick)} x window{none, setback 0, 0.2} x shade{none, rectangle vertical / facing down / facing up / sloped, vertices vertical/45/horizontal} (+ one polygon-defined 30-degree roof per combination), printed as BDL into the cubo.ctehexml wrapper and converted by the real parser + converter: every wall/floor/ceiling corner pushed through to_global_coords_matrix must lie within 1 cm (+1e-4 |coord|) of the corner computed from the BDL conventions, outward normals, areas, window x/y/w/h/setback, shade corners; rotation covariance for every 5th building and every real project with theta in {15, 90, 123.4, 270} (+ one VERIF_SEED-derived angle, labelled sampling): positions turn clockwise by theta, azimuths shift by -theta, areas/volumes/K/n50 unchanged; SPACE-Vn walls of the real projects against the same reference (calibration: max distance reported for spaces without rotation); non-trivial = walls compared",
+        "generated buildings over the product outline{rectangle, L, triangle, convex pentagon, U, rectangle with a corner written twice} x storey height x storeys{1,2} x space offset{(0,0),(3,-2) and 1.2 m up} x space azimuth{0,90,30} x global deviation{0,90,180,290,37.5 (3 values in quick)} x window{none, setback 0, 0.2} x shade{none, rectangle vertical / facing down / facing up / sloped, vertices vertical/45/horizontal} (+ one polygon-defined 30-degree roof per combination), printed as BDL into the cubo.ctehexml wrapper and converted by the real parser + converter: every wall/floor/ceiling corner pushed through to_global_coords_matrix must lie within 1 cm (+1e-4 |coord|) of the corner computed from the BDL conventions, outward normals, areas, window x/y/w/h/setback, shade corners; the overhang / fin shades of a window defined alone and together (each must not depend on the others); rotation covariance for every 5th building and every real project with theta in {15, 90, 123.4, 270} (+ one VERIF_SEED-derived angle, labelled sampling): positions turn clockwise by theta, azimuths shift by -theta, areas/volumes/K/n50 unchanged; SPACE-Vn walls of the real projects against the same reference (calibration: max distance reported for spaces without rotation); non-trivial = walls compared",
         true,
         json!({}),
     )
